@@ -14,7 +14,7 @@ NATIVE_TARGET = os.environ.get('VERIF_NATIVE_TARGET', '/var/tmp/memvid-verif-nat
 DRIVERS = {
     'wal': ('wal_search.rs', 'verif_wal_search', 'VERIF_WAL_HISTORY', 'VERIF_WAL_BUDGET_S'),
     'footer': ('footer_search.rs', 'verif_footer_search', 'VERIF_FOOTER_CASE', 'VERIF_FOOTER_BUDGET_S'),
-    'lex': ('lex_search.rs', 'verif_lex_search', 'VERIF_LEX_CASE', 'VERIF_LEX_BUDGET_S'),
+    'lex': ('lex_search.rs', 'verif_lex_search', 'VERIF_LEX_CASE', 'VERIF_LEX_BUDGET_S', 'src/lex.rs'),
     'adaptive': ('adaptive_search.rs', 'verif_adaptive_search', 'VERIF_ADAPTIVE_CASE', 'VERIF_ADAPTIVE_BUDGET_S'),
     'sketch': ('sketch_search.rs', 'verif_sketch_search', 'VERIF_SKETCH_CASE', 'VERIF_SKETCH_BUDGET_S'),
     'codec': ('codec_search.rs', 'verif_codec_search', 'VERIF_CODEC_CASE', 'VERIF_CODEC_BUDGET_S'),
@@ -35,20 +35,29 @@ def _scratch(repo, tag):
 
 
 def _run_driver(repo, which, case=None, budget=50, timeout=1500):
-    fname, test, case_env, budget_env = DRIVERS[which]
+    fname, test, case_env, budget_env = DRIVERS[which][:4]
+    inline_into = DRIVERS[which][4] if len(DRIVERS[which]) > 4 else None
     src = os.path.join(VERIF, 'replay', fname)
     if not os.path.exists(src):
         return None, 'no native driver %s' % fname
     d = _scratch(repo, which)
     try:
-        shutil.copy(src, os.path.join(d, 'tests', test + '.rs'))
+        if inline_into:
+            # crate-private function: the driver is appended to the scratch copy's source file as a
+            # #[cfg(test)] child module (add-only; /repo itself is never touched)
+            with open(os.path.join(d, inline_into), 'a') as f:
+                f.write('\n#[cfg(test)]\n#[path = "%s"]\nmod verif_native;\n' % src)
+            cargo_args = ['cargo', 'test', '--offline', '--lib', test, '--', '--nocapture', '--test-threads', '1']
+        else:
+            shutil.copy(src, os.path.join(d, 'tests', test + '.rs'))
+            cargo_args = ['cargo', 'test', '--offline', '--test', test, '--', '--nocapture', '--test-threads', '1']
         env = dict(os.environ)
         env['CARGO_TARGET_DIR'] = NATIVE_TARGET
         env['CARGO_NET_OFFLINE'] = 'true'
         env[budget_env] = str(budget)
         if case is not None:
             env[case_env] = case
-        p = subprocess.run(['cargo', 'test', '--offline', '--test', test, '--', '--nocapture', '--test-threads', '1'],
+        p = subprocess.run(cargo_args,
                            cwd=d, env=env, capture_output=True, text=True, timeout=timeout)
         return p.stdout + '\n' + p.stderr[-3000:], None
     except subprocess.TimeoutExpired:
